@@ -123,6 +123,36 @@ ExplainsOp(c, r) ==
                   want == wk * Unit + (fl \div 1000)
               IN  \* 0.5 % of the largest (weighted) operand of the log-sum + quantisation
                   r.v >= want - (wk * Half + 4) /\ r.v <= want + (wk * Half + 4)
+      \* ---- the value types: operators vs documented meaning; operands k0/1000, k1/1000, results on 1e9
+      [] c.op = "operators" ->
+           LET k0 == c.a.k0  k1 == c.a.k1
+               Fin(x) == x.nan = 0 /\ x.inf = 0
+               Is(x, want) == Fin(x) /\ x.v >= want - 2 /\ x.v <= want + 2
+               \* quotient k0/k1 on the 1e9 scale, compared without division: |v*k1 - k0*1e9| <= 2*k1 (k1 > 0)
+               Quot(x) == IF k0 > 2 * k1 THEN Fin(x) /\ x.v >= 2000000000 - 2       \* clamped by the projection
+                          ELSE Fin(x) /\ (x.v \div 1000) * k1 >= k0 * 1000000 - 2 * k1 - 1000
+                                      /\ (x.v \div 1000) * k1 <= k0 * 1000000 + 2 * k1 + 1000
+               B(b) == IF b THEN 1 ELSE 0
+           IN  /\ Is(r.l_add, k0 * k1 * 1000) /\ Is(r.l_add_assign, k0 * k1 * 1000)        \* LogProb + LogProb = product
+               /\ Is(r.p_mul, k0 * k1 * 1000)
+               /\ Is(r.p_add, (k0 + k1) * 1000000) /\ Is(r.p_sub, (k0 - k1) * 1000000)
+               /\ (k0 > 0 => Quot(r.l_sub) /\ Quot(r.l_sub_assign) /\ Quot(r.p_div))                \* LogProb - LogProb = quotient
+               /\ (k0 = 0 => r.l_sub.nan = 0 /\ r.l_sub.v = 0 /\ r.p_div.v = 0)
+               /\ Is(r.l_sum_val, k0 * k1 * 1000)                                            \* Sum of LogProbs = product
+               /\ Fin(r.l_sum_ref) /\ r.l_sum_ref.v >= (k0 * k1 * k1) - 2 /\ r.l_sum_ref.v <= (k0 * k1 * k1) + 2
+               /\ r.lt = <<B(k0 < k1), B(k0 < k1), B(k0 > k1)>>          \* PHRED order is the reverse of the probability order
+               /\ r.gt = <<B(k0 > k1), B(k0 > k1), B(k0 < k1)>>
+               /\ r.eq = <<B(k0 = k1), B(k0 = k1), B(k0 = k1)>>
+               /\ r.valid = 1
+      [] c.op = "serde" ->
+           /\ \A x \in {r.p, r.l, r.q} : x.nan = 0 /\ x.inf = 0 /\ x.v >= c.a.k * 1000000 - 2 /\ x.v <= c.a.k * 1000000 + 2
+      [] c.op = "defaults" ->
+           /\ r.logprob_default_neginf = 1 /\ r.phred_default_posinf = 1 /\ r.prob_default.v = 0 /\ r.prob_default.nan = 0
+           /\ r.logprob_zero_is_zero = 1 /\ r.prob_zero_is_zero = 1 /\ r.phred_zero_is_zero = 1
+           /\ r.ln_one_is_zero = 0 /\ r.half_is_zero = 0 /\ r.tiny_is_zero = 0       \* only ln(0) is zero
+           /\ r.ln_one.v = Unit9 /\ r.ln_zero_neginf = 1
+           /\ r.zero_plus.v = 0 /\ r.zero_plus.nan = 0                                 \* 0 * p = 0
+      [] c.op = "cap" -> FALSE        \* handled in Explains (a panic is the documented refusal)
       [] c.op = "checked" ->
            /\ (r.ok = 1) <=> CheckedAccepts(c.a)
            /\ (r.ok = 1 /\ c.a.kind = "ratio") =>
@@ -144,9 +174,17 @@ ExplainsChain(s, c, r) ==
     /\ (r.neginf = 1) => r.v = 0
     /\ Within(r.v, After(s, c).acc, After(s, c).n)
 
+\* cap_numerical_overshoot(v, eps), both in units of 1e-9: values <= 0 unchanged, overshoots up to
+\* and including eps become ln(1) = 0, larger ones are refused (documented panic)
+ExplainsCap(c, r) ==
+    IF c.a.vn <= 0 THEN r.st = "ok" /\ r.v = c.a.vn
+    ELSE IF c.a.vn <= c.a.en THEN r.st = "ok" /\ r.v = 0
+    ELSE r.st = "panic"
+
 Explains(cfg, s, e) ==
-    /\ e.r.st = "ok"
-    /\ IF cfg.kind = "chain" THEN ExplainsChain(s, e.c, e.r) ELSE ExplainsOp(e.c, e.r)
+    IF e.c.op = "cap" THEN ExplainsCap(e.c, e.r)
+    ELSE /\ e.r.st = "ok"
+         /\ IF cfg.kind = "chain" THEN ExplainsChain(s, e.c, e.r) ELSE ExplainsOp(e.c, e.r)
 
 Init == run \in 1..Len(Rec) /\ idx = 0 /\ ok = TRUE /\ st = InitSt
 Next ==
